@@ -227,6 +227,34 @@ func checkC18(c c18Case) error {
 		if findEntry(es, entryID(c.Test, k+1)) < 0 || findEntry(es, id) >= 0 {
 			return fmt.Errorf("the failing call must consume its ordinal: expected entry %q and no %q, file has %s", entryID(c.Test, k+1), id, describeEntries(es))
 		}
+		// the same text is not valid YAML either when the file already holds it under that id (the test used to call
+		// MatchSnapshot with this string; a hand-edited file): one `invalid yaml` failure in every mode, nothing written
+		if hasTrailingCR(string(c.Doc)) {
+			return nil
+		}
+		root2 := scratchDir()
+		defer os.RemoveAll(root2)
+		spec2 := CfgSpec{Dir: "snaps", Filename: "f"}
+		newProcess(Mode{})
+		ft2 := newFakeT(c.Test)
+		if r0 := (Call{API: "snap", Vals: []Val{strVal(string(c.Doc))}}).invoke(spec2.build(root2), ft2); len(r0.Errors) != 0 {
+			return fmt.Errorf("harness: storing the text through MatchSnapshot: %q", clipAll(r0.Errors))
+		}
+		ft2.finish()
+		for _, mode := range []Mode{{}, {CI: true}, {Update: "true"}} {
+			newProcess(mode)
+			ageDir(root2)
+			pre2 := snapDir(root2)
+			ft2 = newFakeT(c.Test)
+			r2 := Call{API: "yaml", Doc: c.Doc, Form: c.Form}.invoke(spec2.build(root2), ft2)
+			ft2.finish()
+			if o2, _ := outcomeOf(r2); o2 != oFailed || len(r2.Errors) == 0 || !strings.Contains(r2.Errors[0], "invalid yaml") {
+				return fmt.Errorf("input %q is not valid YAML; with the identical text already stored under the id (mode %+v) the call ended as %q errors=%q", clip(string(c.Doc)), mode, o2, clipAll(r2.Errors))
+			}
+			if d := diffDirs(pre2, snapDir(root2), true); d != "" {
+				return fmt.Errorf("invalid YAML (identical text already stored, mode %+v) wrote: %s", mode, d)
+			}
+		}
 		return nil
 	}
 	if out != oAdded {
